@@ -337,7 +337,7 @@ def run_check(prop, tier="quick", seed=0, jobs=None, budget_s=None):
     fams = props.families(prop)
     meta = props.META[prop]
     if budget_s is None:
-        budget_s = float(os.environ.get("VERIF_BUDGET_S", "50" if tier == "quick" else "900"))
+        budget_s = float(os.environ.get("VERIF_BUDGET_S", "42" if tier == "quick" else "900"))
     deadline = t0 + budget_s
     out_lines = []
     exit_code = 0
